@@ -309,7 +309,7 @@ fn scenario(ctx: &Ctx, case: u64, out: &mut Out) {
         out.max("simultaneously_served", served as u64);
         drop(held);
     }
-    if out.samples.len() < 3 && case % 11 == 2 {
+    if out.samples.len() < 3 && (case % 11 == 2 || out.samples.is_empty()) {
         let mode_name = ["N+1 limit", "3N burst", "leak + capacity probe"][mode as usize];
         out.sample(json!({"case": case, "max_connections": n, "mode": mode_name, "runtime_threads": threads}));
     }
